@@ -191,7 +191,7 @@ class AtomsEngine(Engine):
                     wl = [rng.uniform(0.05, 30.0), wl_u]
                 else:
                     wl = [[rng.uniform(0.05, 30.0) for _ in range(rng.randrange(1, 5))], wl_u]
-                op = {"c": c, "op": "atten", "name": name,
+                op = {"c": c, "op": "atten", "name": name, "reuse": rng.random() < 0.5,
                       "n": [rng.choice([1.0, 0.5, rng.uniform(1e-3, 10.0), rng.uniform(1e20, 1e30)]),
                             rng.choice(N_UNITS)],
                       "wl": wl}
@@ -221,6 +221,7 @@ class AtomsEngine(Engine):
         t = _tables()
         _PROXY.ctx = ctx
         _PROXY.reset()
+        self._materials = {}
         ops = scenario["ops"]
         if scenario["kind"] == "sweep":
             names = t.all_names()[scenario["slice"][0]: scenario["slice"][1]]
@@ -478,7 +479,20 @@ class AtomsEngine(Engine):
                 wl = sc.array(dims=["wavelength"], values=wlv, unit=wlu)
             else:
                 wl = sc.scalar(wlv, unit=wlu)
-            mu = Material(sp, n).attenuation_coefficient(wl)
+            if op.get("reuse"):
+                # one Material object per caller, re-used: its fields are reassigned (it is a
+                # plain, non-frozen dataclass) before the next evaluation
+                mats = self.__dict__.setdefault("_materials", {})
+                m = mats.get(ctx.caller)
+                if m is None:
+                    m = mats[ctx.caller] = Material(sp, n)
+                else:
+                    m.scattering_params = sp
+                    m.effective_sample_number_density = n
+                    ctx.probe("material_object_reused")
+                mu = m.attenuation_coefficient(wl)
+            else:
+                mu = Material(sp, n).attenuation_coefficient(wl)
             got = sc.to_unit(sc.values(mu), "1/m", copy=True)
         except Exception as e:  # noqa: BLE001
             if (isinstance(e, sc.VariancesError) and isinstance(op["wl"][0], list)
